@@ -907,9 +907,16 @@ impl<'a> Parser<'a> {
                 // c is the EOF code point, U+002F (/), U+003F (?), or U+0023 (#)
                 // url is special and c is U+005C (\)
                 // If @ flag is set and buffer is the empty string, validation error, return failure.
-                if let (Some(c), _) = remaining.split_first() {
-                    if c == '/' || c == '?' || c == '#' || (scheme_type.is_special() && c == '\\') {
-                        return Err(ParseError::EmptyHost);
+                match remaining.split_first() {
+                    (None, _) => return Err(ParseError::EmptyHost),
+                    (Some(c), _) => {
+                        if c == '/'
+                            || c == '?'
+                            || c == '#'
+                            || (scheme_type.is_special() && c == '\\')
+                        {
+                            return Err(ParseError::EmptyHost);
+                        }
                     }
                 }
                 return Ok((to_u32(self.serialization.len())?, remaining));
